@@ -1,8 +1,435 @@
-/- C08 — placeholder until the schema proofs are merged (not registered in MANIFEST.json). -/
+/-
+  C08 — a typed node's two views are related exactly by the declared representation strategy.
+
+  "For every schema type and every value of that type, a typed node presents a type-level view and a
+  representation view related exactly by the type's declared representation strategy: struct as map
+  (with renames, optional fields omitted, nullable fields as null), tuple, stringjoin or listpairs;
+  union as keyed, kinded or stringprefix; enum as string or int; typed maps and lists element-wise.
+  Building the value through the type-level builder or through the representation builder gives the
+  same node, and encoding the representation and decoding it back through the representation builder
+  reproduces the same bytes and the same typed value."
+
+  Property theorems only; helper lemmas and the two side conditions are in `Lemmas/Schema*.lean`.
+
+  Vocabulary:
+    * `toRepr ty nul v` / `repr ty v = toRepr ty false v` — the representation view of the typed value
+      `v` (`Model/Schema.lean`); `none` when `v` is not of the canonical shape of a typed node (a struct
+      lists exactly its fields, in declaration order, unset optional ones as `absent`) or has no
+      representation;
+    * `shapeOK ty v` (`Lemmas/SchemaTotal.lean`, decidable) — `v` has the canonical shape and no
+      tuple-represented struct in it has an absent field before a present one.  It is EXACTLY the
+      condition under which a conforming value has a representation (`repr_total`, `repr_total_exact`);
+    * `unambig ty v` (`Lemmas/SchemaRound2.lean`, decidable) — nowhere in `v` does a string-based or
+      kinded strategy lose information: a stringjoin struct's joined string splits back into its
+      parts, a stringprefix union's text splits back into discriminant and rest (with a delimiter) or
+      is claimed by no earlier member (without), a kinded union member's representation has the kind
+      the member is listed under.  The round trip holds under this condition, and each of its clauses
+      is needed: see `roundtrip_fails_*` for what happens without it (the model follows the library's
+      `strings.Split` / `SplitN` / `HasPrefix` / kind-table code there).
+-/
 import IpldModel.Model.Schema
+import IpldModel.Lemmas.SchemaRound2
+import IpldModel.Lemmas.SchemaTotal
+import IpldModel.Lemmas.SchemaRepr
+import IpldModel.Lemmas.SchemaNorm
+import IpldModel.Lemmas.SchemaShape
 namespace Ipld.Props.C08
 open Ipld Ipld.Schema
 
-theorem ideal_has_no_quirk : (Engine.ideal.flags.all fun f => !f.2.1) = true := by decide
+/-! ## C08-3 — the round trip: representation, then representation builder -/
+
+/-- **ofRepr_repr_partial.**  For a well-formed type, a conforming value whose representation loses no
+    information (`unambig`) and IS `d` is rebuilt exactly by the ideal representation builder fed `d`
+    — in any slot.  (A value that has a representation is canonical, so the value rebuilt is `v`
+    itself, not merely its normal form.)  `unambig` had to be added: see `roundtrip_fails_*`. -/
+theorem toRepr_build_partial (ty : Ty) (nul : Bool) (v : TL) (d : DM) (hwf : ty.wf = true)
+    (hc : conforms ty nul v = true) (hu : unambig ty v = true) (hr : toRepr ty nul v = some d) :
+    build Engine.ideal .repr ty nul none d = .ok v :=
+  rt v ty nul hwf hc hu d hr
+
+/-- **ofRepr_repr_partial** (root form). -/
+theorem ofRepr_repr_partial (ty : Ty) (v : TL) (d : DM) (hwf : ty.wf = true)
+    (hc : conforms ty false v = true) (hu : unambig ty v = true) (hr : repr ty v = some d) :
+    ofRepr Engine.ideal ty d = .ok v :=
+  rt v ty false hwf hc hu d hr
+
+/-- "reproduces the same bytes and the same typed value": the node rebuilt from the representation has
+    the same representation again (so any deterministic codec writes the same bytes). -/
+theorem repr_ofRepr_repr_partial (ty : Ty) (v : TL) (d : DM) (hwf : ty.wf = true)
+    (hc : conforms ty false v = true) (hu : unambig ty v = true) (hr : repr ty v = some d) :
+    ∃ v', ofRepr Engine.ideal ty d = .ok v' ∧ v' = v ∧ repr ty v' = some d :=
+  ⟨v, rt v ty false hwf hc hu d hr, rfl, hr⟩
+
+/-- **value_with_repr_is_normal.**  A value that has a representation is already in normal form: this
+    is why the round trip gives back `v` itself. -/
+theorem value_with_repr_is_normal (ty : Ty) (nul : Bool) (v : TL) (d : DM) (hwf : ty.wf = true)
+    (hr : toRepr ty nul v = some d) : normalize ty v = v :=
+  normalize_of_repr v ty nul hwf d hr
+
+/-- **ofRepr_repr_normalize_partial.**  For ANY conforming typed value `v` (struct entries in any order,
+    unset optional fields left out or explicit): the representation of its normal form — the typed
+    node it denotes — is rebuilt to that normal form. -/
+theorem ofRepr_repr_normalize_partial (ty : Ty) (v : TL) (d : DM) (hwf : ty.wf = true)
+    (hc : conforms ty false v = true) (hu : unambig ty (normalize ty v) = true)
+    (hr : repr ty (normalize ty v) = some d) :
+    ofRepr Engine.ideal ty d = .ok (normalize ty v) :=
+  rt (normalize ty v) ty false hwf (conforms_normalize v ty false hwf hc) hu d hr
+
+/-! ### The side condition is needed -/
+
+/-- `struct { a String; b String } representation stringjoin ":"` -/
+def exJoin : Ty :=
+  .struct (.cons [97] [97] false false .str (.cons [98] [98] false false .str .nil)) (.stringjoin [58])
+
+/-- **roundtrip_fails_stringjoin.**  A field string containing the delimiter: `{a: "x:y", b: "z"}` is
+    represented by `"x:y:z"`, which has three parts; the representation builder rejects it. -/
+theorem roundtrip_fails_stringjoin :
+    let v : TL := .map (.cons [97] (.str [120, 58, 121]) (.cons [98] (.str [122]) .nil))
+    exJoin.wf = true ∧ conforms exJoin false v = true ∧ unambig exJoin v = false ∧
+    repr exJoin v = some (.str [120, 58, 121, 58, 122]) ∧
+    ofRepr Engine.ideal exJoin (.str [120, 58, 121, 58, 122]) = .reject := by decide
+
+/-- ... and a stringjoin struct without fields: its representation `""` splits into ONE part. -/
+theorem roundtrip_fails_empty_stringjoin :
+    let ty : Ty := .struct .nil (.stringjoin [58])
+    ty.wf = true ∧ conforms ty false (.map .nil) = true ∧ unambig ty (.map .nil) = false ∧
+    repr ty (.map .nil) = some (.str []) ∧ ofRepr Engine.ideal ty (.str []) = .reject := by decide
+
+/-- `union { | String "a:b" | String "a" } representation stringprefix ":"`, members named "P", "Q" -/
+def exPrefix : Ty :=
+  .union (.cons [80] [97, 58, 98] .str .str (.cons [81] [97] .str .str .nil)) (.stringprefix [58])
+
+/-- **roundtrip_fails_stringprefix.**  A discriminant containing the delimiter: the value `P "x"` is
+    represented by `"a:b:x"`, which the builder reads as member `Q` holding `"b:x"` — a DIFFERENT,
+    conforming node is built silently. -/
+theorem roundtrip_fails_stringprefix :
+    let v : TL := .map (.cons [80] (.str [120]) .nil)
+    exPrefix.wf = true ∧ conforms exPrefix false v = true ∧ unambig exPrefix v = false ∧
+    repr exPrefix v = some (.str [97, 58, 98, 58, 120]) ∧
+    ofRepr Engine.ideal exPrefix (.str [97, 58, 98, 58, 120])
+      = .ok (.map (.cons [81] (.str [98, 58, 120]) .nil)) := by decide
+
+/-- `union { | String "a" | String "ab" } representation stringprefix ""` (no delimiter), members "Q", "P" -/
+def exPrefixNoDelim : Ty :=
+  .union (.cons [81] [97] .str .str (.cons [80] [97, 98] .str .str .nil)) (.stringprefix [])
+
+/-- **roundtrip_fails_stringprefix_nodelim.**  Without delimiter the FIRST member whose discriminant is a
+    prefix of the text wins: `P "x"` is represented by `"abx"`, read back as `Q "bx"`. -/
+theorem roundtrip_fails_stringprefix_nodelim :
+    let v : TL := .map (.cons [80] (.str [120]) .nil)
+    exPrefixNoDelim.wf = true ∧ conforms exPrefixNoDelim false v = true ∧
+    unambig exPrefixNoDelim v = false ∧ repr exPrefixNoDelim v = some (.str [97, 98, 120]) ∧
+    ofRepr Engine.ideal exPrefixNoDelim (.str [97, 98, 120])
+      = .ok (.map (.cons [81] (.str [98, 120]) .nil)) := by decide
+
+/-- `union { | Int string | String int } representation kinded` — each member listed under the kind of
+    the OTHER's representation (`Ty.wf` only asks the listed kinds to be distinct). -/
+def exKindedSwapped : Ty :=
+  .union (.cons [73] [] .str .int (.cons [83] [] .int .str .nil)) .kinded
+
+/-- **roundtrip_fails_kinded.**  A member listed under a kind that is not its representation's: the
+    value `I 1` is represented by `1`, an int; the builder hands ints to member `S`, a string: rejected. -/
+theorem roundtrip_fails_kinded :
+    let v : TL := .map (.cons [73] (.int 1) .nil)
+    exKindedSwapped.wf = true ∧ conforms exKindedSwapped false v = true ∧
+    unambig exKindedSwapped v = false ∧ repr exKindedSwapped v = some (.int 1) ∧
+    ofRepr Engine.ideal exKindedSwapped (.int 1) = .reject := by decide
+
+/-! ## C08-1 — which values have a representation -/
+
+/-- **repr_total_partial.**  Every conforming value of canonical shape in which no tuple-represented
+    struct has an absent field before a present one has a representation.  (`shapeOK` had to be added:
+    see `repr_none_*`.) -/
+theorem repr_total_partial (ty : Ty) (nul : Bool) (v : TL) (hwf : ty.wf = true)
+    (hc : conforms ty nul v = true) (hs : shapeOK ty v = true) : ∃ d, toRepr ty nul v = some d :=
+  total v ty nul hwf hc hs
+
+/-- **repr_total_exact.**  ... and only those: `shapeOK` is exactly the side condition.  For a
+    conforming value of a well-formed type, "has a representation" ↔ `shapeOK`. -/
+theorem repr_total_exact (ty : Ty) (v : TL) (hwf : ty.wf = true) (hc : conforms ty false v = true) :
+    (∃ d, repr ty v = some d) ↔ shapeOK ty v = true :=
+  ⟨fun ⟨d, hd⟩ => shape_of_repr v ty false d hd, fun hs => total v ty false hwf hc hs⟩
+
+/-- **repr_total_normalize_partial.**  For ANY conforming typed value: its normal form has a
+    representation as soon as no tuple in it has a gap. -/
+theorem repr_total_normalize_partial (ty : Ty) (v : TL) (hwf : ty.wf = true)
+    (hc : conforms ty false v = true) (hs : shapeOK ty (normalize ty v) = true) :
+    ∃ d, repr ty (normalize ty v) = some d :=
+  total (normalize ty v) ty false hwf (conforms_normalize v ty false hwf hc) hs
+
+/-- `struct { a optional Int; b optional Int } representation tuple` -/
+def exTuple : Ty :=
+  .struct (.cons [97] [97] true false .int (.cons [98] [98] true false .int .nil)) .tuple
+
+/-- **repr_none_tuple.**  A tuple with an absent field before a present one conforms, is canonical, and
+    has no representation (a list cannot skip a position). -/
+theorem repr_none_tuple :
+    let v : TL := .map (.cons [97] .absent (.cons [98] (.int 1) .nil))
+    exTuple.wf = true ∧ conforms exTuple false v = true ∧ shapeOK exTuple v = false ∧
+    repr exTuple v = none := by decide
+
+/-- **repr_none_noncanonical.**  `conforms` leaves struct entry order free and lets unset optional fields
+    be left out; `repr` is defined on the canonical form (what a typed node presents) only. -/
+theorem repr_none_noncanonical :
+    let v : TL := .map (.cons [98] (.int 1) (.cons [97] (.int 2) .nil))
+    conforms exTuple false v = true ∧ shapeOK exTuple v = false ∧ repr exTuple v = none ∧
+    repr exTuple (normalize exTuple v) = some (.list (.cons (.int 2) (.cons (.int 1) .nil))) := by decide
+
+/-- What the builders build has the canonical shape, hence (tuples permitting) a representation. -/
+example :
+    ofType Engine.ideal exTuple (.map (.cons [98] (.int 1) (.cons [97] (.int 2) .nil)))
+      = .ok (.map (.cons [97] (.int 2) (.cons [98] (.int 1) .nil))) := by decide
+
+/-- **ofRepr_built_has_repr.**  Every node the representation builder builds has a representation (it
+    has the canonical shape and, being assembled position by position, no tuple gap). -/
+theorem ofRepr_built_has_repr (ty : Ty) (d : DM) (v : TL) (hwf : ty.wf = true)
+    (h : ofRepr Engine.ideal ty d = .ok v) : ∃ d', repr ty v = some d' :=
+  build_repr_has_repr ty false d v hwf h
+
+/-- **ofType_built_may_lack_repr.**  Not so for the type-level builder: it accepts `{"b": 1}` for the
+    tuple-represented `exTuple`, and the node `{a: absent, b: 1}` it builds has no representation. -/
+theorem ofType_built_may_lack_repr :
+    ofType Engine.ideal exTuple (.map (.cons [98] (.int 1) .nil))
+      = .ok (.map (.cons [97] .absent (.cons [98] (.int 1) .nil))) ∧
+    repr exTuple (.map (.cons [97] .absent (.cons [98] (.int 1) .nil))) = none := by decide
+
+/-- For a node built by the type-level builder, "has a representation" is exactly `shapeOK` (i.e. "no
+    tuple gap": the canonical shape it has anyway). -/
+theorem ofType_built_has_repr_iff (ty : Ty) (input : DM) (v : TL) (hwf : ty.wf = true)
+    (h : ofType Engine.ideal ty input = .ok v) : (∃ d, repr ty v = some d) ↔ shapeOK ty v = true :=
+  repr_total_exact ty v hwf (build_conforms .type input ty false hwf v h)
+
+/-! ## C08-2 — the representation conforms at representation level -/
+
+/-- **repr_conforms_partial.**  The representation of a conforming, unambiguous value conforms at
+    representation level. -/
+theorem repr_conforms_partial (ty : Ty) (nul : Bool) (v : TL) (d : DM) (hwf : ty.wf = true)
+    (hc : conforms ty nul v = true) (hu : unambig ty v = true) (hr : toRepr ty nul v = some d) :
+    conformsRepr ty nul d = true := by
+  rw [← build_repr_isOk d ty nul hwf, rt v ty nul hwf hc hu d hr]
+  rfl
+
+/-- Without `unambig` it need not: `"x:y:z"` is not a two-field stringjoin. -/
+theorem repr_conforms_needs_unambig :
+    let v : TL := .map (.cons [97] (.str [120, 58, 121]) (.cons [98] (.str [122]) .nil))
+    conforms exJoin false v = true ∧ repr exJoin v = some (.str [120, 58, 121, 58, 122]) ∧
+    conformsRepr exJoin false (.str [120, 58, 121, 58, 122]) = false := by decide
+
+/-! ## C08-4 — the two builders agree -/
+
+/-- **ofType_ofRepr_agree_partial.**  A node built through the type-level builder, presented through its
+    representation, and rebuilt through the representation builder is the same node. -/
+theorem ofType_ofRepr_agree_partial (ty : Ty) (input : DM) (v : TL) (d : DM) (hwf : ty.wf = true)
+    (hb : ofType Engine.ideal ty input = .ok v) (hu : unambig ty v = true) (hr : repr ty v = some d) :
+    ofRepr Engine.ideal ty d = .ok v :=
+  rt v ty false hwf (build_conforms .type input ty false hwf v hb) hu d hr
+
+/-- Without `unambig` the two builders can disagree: the type-level builder builds `{a: "x:y", b: "z"}`
+    for `exJoin`; its representation `"x:y:z"` is rejected by the representation builder. -/
+theorem ofType_ofRepr_agree_needs_unambig :
+    let input : DM := .map (.cons [97] (.str [120, 58, 121]) (.cons [98] (.str [122]) .nil))
+    let v : TL := .map (.cons [97] (.str [120, 58, 121]) (.cons [98] (.str [122]) .nil))
+    ofType Engine.ideal exJoin input = .ok v ∧ repr exJoin v = some (.str [120, 58, 121, 58, 122]) ∧
+    ofRepr Engine.ideal exJoin (.str [120, 58, 121, 58, 122]) = .reject := by decide
+
+/-- ... and the other way round: a node built by the representation builder from `d0`, presented as
+    `d`, is rebuilt from `d` (`d` is `d0` up to the order of map-represented struct entries). -/
+theorem ofRepr_ofRepr_agree_partial (ty : Ty) (d0 : DM) (v : TL) (d : DM) (hwf : ty.wf = true)
+    (hb : ofRepr Engine.ideal ty d0 = .ok v) (hu : unambig ty v = true) (hr : repr ty v = some d) :
+    ofRepr Engine.ideal ty d = .ok v :=
+  rt v ty false hwf (build_conforms .repr d0 ty false hwf v hb) hu d hr
+
+/-! ## C08-6 — the representation determines the value -/
+
+/-- **repr_injective_partial.**  Two conforming, unambiguous values with the same representation are
+    equal. -/
+theorem repr_injective_partial (ty : Ty) (v₁ v₂ : TL) (d : DM) (hwf : ty.wf = true)
+    (hc₁ : conforms ty false v₁ = true) (hc₂ : conforms ty false v₂ = true)
+    (hu₁ : unambig ty v₁ = true) (hu₂ : unambig ty v₂ = true)
+    (h₁ : repr ty v₁ = some d) (h₂ : repr ty v₂ = some d) : v₁ = v₂ := by
+  have e₁ := rt v₁ ty false hwf hc₁ hu₁ d h₁
+  have e₂ := rt v₂ ty false hwf hc₂ hu₂ d h₂
+  rw [e₁] at e₂
+  exact Outcome.ok.inj e₂
+
+/-- Without `unambig`, two different conforming values can share a representation. -/
+theorem repr_not_injective :
+    let v₁ : TL := .map (.cons [80] (.str [120]) .nil)
+    let v₂ : TL := .map (.cons [81] (.str [98, 58, 120]) .nil)
+    conforms exPrefix false v₁ = true ∧ conforms exPrefix false v₂ = true ∧ v₁ ≠ v₂ ∧
+    repr exPrefix v₁ = repr exPrefix v₂ := by decide
+
+/-! ## C08-5 — the strategy equations -/
+
+/-- null: only in a nullable slot, represented by null. -/
+theorem repr_null (ty : Ty) : toRepr ty true .null = some .null ∧ toRepr ty false .null = none := by
+  simp [toRepr]
+
+/-- typed list: element-wise. -/
+theorem repr_list (ety : Ty) (enul nul : Bool) (xs : TLs) :
+    toRepr (.list ety enul) nul (.list xs) = (reprList ety enul xs).map fun ys => .list (DMs.ofList ys) := by
+  simp only [toRepr]
+
+/-- ... head first, then the rest. -/
+theorem repr_list_cons (ety : Ty) (enul : Bool) (x : TL) (xs : TLs) (d : DM) (ds : List DM)
+    (hx : toRepr ety enul x = some d) (hxs : reprList ety enul xs = some ds) :
+    reprList ety enul (.cons x xs) = some (d :: ds) := by
+  simp [reprList, hx, hxs]
+
+/-- typed map: same keys, in the same order, values element-wise. -/
+theorem repr_map (vty : Ty) (vnul nul : Bool) (es : TLKVs) :
+    toRepr (.map vty vnul) nul (.map es) = (reprMap vty vnul es).map fun ys => .map (DMKVs.ofList ys) := by
+  simp only [toRepr]
+
+/-- ... entry by entry, the key unchanged. -/
+theorem repr_map_cons (vty : Ty) (vnul : Bool) (k : Bytes) (x : TL) (xs : TLKVs) (d : DM)
+    (ds : List (Bytes × DM)) (hx : toRepr vty vnul x = some d) (hxs : reprMap vty vnul xs = some ds) :
+    reprMap vty vnul (.cons k x xs) = some ((k, d) :: ds) := by
+  simp [reprMap, hx, hxs]
+
+/-- struct, field by field (`reprFields`): an unset optional field has no representation entry ... -/
+theorem repr_field_absent (f : Field) (fs : List Field) (es : TLKVs) (ho : f.opt = true) :
+    reprFields (f :: fs) (.cons f.name .absent es) = (reprFields fs es).map (none :: ·) :=
+  reprFields_cons_absent f fs es ho
+
+/-- ... a set field has the representation of its value (null for a null in a nullable field). -/
+theorem repr_field_present (f : Field) (fs : List Field) (v : TL) (es : TLKVs) (d : DM)
+    (r : List (Option DM)) (hne : v ≠ .absent) (hd : toRepr f.ty f.nullable v = some d)
+    (hr : reprFields fs es = some r) :
+    reprFields (f :: fs) (.cons f.name v es) = some (some d :: r) :=
+  reprFields_cons_present f fs v es d r hne hd hr
+
+/-- struct as map: the set fields, in declaration order, each under its representation key (the
+    rename); unset optional fields omitted. -/
+theorem repr_struct_map (fs : Fields) (nul : Bool) (es : TLKVs) (vals : List (Option DM))
+    (h : reprFields fs.toList es = some vals) :
+    toRepr (.struct fs .map) nul (.map es) = some (.map (DMKVs.ofList (mapEntries fs.toList vals))) := by
+  rw [toRepr_struct_map, h]; rfl
+
+/-- map representation: an unset field contributes no entry ... -/
+theorem mapEntries_absent (f : Field) (fs : List Field) (vals : List (Option DM)) :
+    mapEntries (f :: fs) (none :: vals) = mapEntries fs vals := mapEntries_none f fs vals
+
+/-- ... a set field contributes `rename ↦ representation of its value`. -/
+theorem mapEntries_present (f : Field) (fs : List Field) (d : DM) (vals : List (Option DM)) :
+    mapEntries (f :: fs) (some d :: vals) = (f.rename, d) :: mapEntries fs vals := mapEntries_some f fs d vals
+
+/-- struct as listpairs: a list of `[name, value]` pairs for the set fields, in declaration order. -/
+theorem repr_struct_listpairs (fs : Fields) (nul : Bool) (es : TLKVs) (vals : List (Option DM))
+    (h : reprFields fs.toList es = some vals) :
+    toRepr (.struct fs .listpairs) nul (.map es) = some (.list (DMs.ofList (pairEntries fs.toList vals))) := by
+  rw [toRepr_struct_listpairs, h]; rfl
+
+/-- listpairs representation: a set field contributes the pair `[name, representation of its value]`. -/
+theorem pairEntries_present (f : Field) (fs : List Field) (d : DM) (vals : List (Option DM)) :
+    pairEntries (f :: fs) (some d :: vals) =
+      DM.list (.cons (.str f.name) (.cons d .nil)) :: pairEntries fs vals := pairEntries_some f fs d vals
+
+/-- struct as tuple: the field values in declaration order, the trailing unset ones dropped. -/
+theorem repr_struct_tuple (fs : Fields) (nul : Bool) (es : TLKVs) (ds : List DM) (n : Nat)
+    (h : reprFields fs.toList es = some (ds.map some ++ List.replicate n none)) :
+    toRepr (.struct fs .tuple) nul (.map es) = some (.list (DMs.ofList ds)) := by
+  rw [toRepr_struct_tuple, h]
+  simp only [dropTrailingNone_split, allSome_map_some]; rfl
+
+/-- struct as stringjoin: the field strings joined by the delimiter. -/
+theorem repr_struct_stringjoin (fs : Fields) (delim : Bytes) (nul : Bool) (es : TLKVs) (ss : List Bytes)
+    (h : reprFields fs.toList es = some (ss.map fun s => some (.str s))) :
+    toRepr (.struct fs (.stringjoin delim)) nul (.map es) = some (.str (joinBytes delim ss)) := by
+  rw [toRepr_struct_stringjoin, h]
+  have h1 : ∀ l : List Bytes, allSome (l.map fun s => some (DM.str s)) = some (l.map DM.str) := by
+    intro l
+    induction l with
+    | nil => rfl
+    | cons a l ih => simp [allSome, ih]
+  have h2 : ∀ l : List Bytes, allStr (l.map DM.str) = some l := by
+    intro l
+    induction l with
+    | nil => rfl
+    | cons a l ih => simp [allStr, ih]
+  simp only [h1, h2]; rfl
+
+/-- union, keyed: a single-entry map keyed by the member's discriminant. -/
+theorem repr_union_keyed (ms : Members) (nul : Bool) (k : Bytes) (v : TL) (m : Member) (d : DM)
+    (hm : ms.toList.find? (fun m => m.name == k) = some m) (hd : toRepr m.ty false v = some d) :
+    toRepr (.union ms .keyed) nul (.map (.cons k v .nil)) = some (.map (.cons m.disc d .nil)) := by
+  simp only [toRepr, hm, hd]
+
+/-- union, kinded: the member's representation itself. -/
+theorem repr_union_kinded (ms : Members) (nul : Bool) (k : Bytes) (v : TL) (m : Member) (d : DM)
+    (hm : ms.toList.find? (fun m => m.name == k) = some m) (hd : toRepr m.ty false v = some d) :
+    toRepr (.union ms .kinded) nul (.map (.cons k v .nil)) = some d := by
+  simp only [toRepr, hm, hd]
+
+/-- union, stringprefix: discriminant, delimiter, the member's string. -/
+theorem repr_union_stringprefix (ms : Members) (delim : Bytes) (nul : Bool) (k : Bytes) (v : TL)
+    (m : Member) (s : Bytes)
+    (hm : ms.toList.find? (fun m => m.name == k) = some m) (hd : toRepr m.ty false v = some (.str s)) :
+    toRepr (.union ms (.stringprefix delim)) nul (.map (.cons k v .nil))
+      = some (.str (m.disc ++ delim ++ s)) := by
+  simp only [toRepr, hm, hd]
+
+/-- The kinded strategy on the builder side: the representation builder of a kinded union hands a
+    non-null input to the member listed under the input's kind and wraps the result. -/
+theorem build_union_kinded (ms : Members) (nul : Bool) (d : DM) (hd : d ≠ .null) :
+    build Engine.ideal .repr (.union ms .kinded) nul none d =
+      match ms.toList.find? (fun m => m.kind == d.kind) with
+      | none => .reject
+      | some m => (build Engine.ideal .repr m.ty false none d).map (wrapMember m.name) :=
+  build_kinded_eq ms nul d hd
+
+/-- enum as string: the member's representation string (its name unless renamed). -/
+theorem repr_enum_str (ms : List EnumMember) (nul : Bool) (s : Bytes) (m : EnumMember)
+    (hm : ms.find? (fun m => m.name == s) = some m) :
+    toRepr (.enum ms .str) nul (.str s) = some (.str m.rstr) := by
+  simp only [toRepr, hm]
+
+/-- enum as int: the member's representation int. -/
+theorem repr_enum_int (ms : List EnumMember) (nul : Bool) (s : Bytes) (m : EnumMember)
+    (hm : ms.find? (fun m => m.name == s) = some m) :
+    toRepr (.enum ms .int) nul (.str s) = some (.int m.rint) := by
+  simp only [toRepr, hm]
+
+/-! ## Examples: the hypotheses are satisfiable on a non-trivial type -/
+
+/-- `struct { a Int (rename "x"); b optional nullable [String]; c optional Int } representation map` -/
+def exStruct : Ty :=
+  .struct (.cons [97] [120] false false .int
+          (.cons [98] [98] true true (.list .str false)
+          (.cons [99] [99] true false .int .nil))) .map
+
+/-- `union { | exStruct map | exJoin string | enum{Y "yes" 1, N "no" 0}/int int } representation kinded` -/
+def exUnion : Ty :=
+  .union (.cons [83] [] .map exStruct
+         (.cons [74] [] .str exJoin
+         (.cons [69] [] .int (.enum [⟨[89], [121], 1⟩, ⟨[78], [110], 0⟩] .int) .nil))) .kinded
+
+/-- `{ String : exUnion }` with nullable values -/
+def exTy : Ty := .map exUnion true
+
+/-- a value: `{"k1": S{a: 7, b: null, c: absent}, "k2": J{a: "p", b: "q"}, "k3": E "N", "k4": null}` -/
+def exVal : TL :=
+  .map (.cons [107, 49] (.map (.cons [83]
+          (.map (.cons [97] (.int 7) (.cons [98] .null (.cons [99] .absent .nil)))) .nil))
+       (.cons [107, 50] (.map (.cons [74]
+          (.map (.cons [97] (.str [112]) (.cons [98] (.str [113]) .nil))) .nil))
+       (.cons [107, 51] (.map (.cons [69] (.str [78]) .nil))
+       (.cons [107, 52] .null .nil))))
+
+/-- its representation: `{"k1": {"x": 7, "b": null}, "k2": "p:q", "k3": 0, "k4": null}` — rename, absent
+    optional omitted, nullable null, stringjoin, int enum, kinded union transparent -/
+def exRepr : DM :=
+  .map (.cons [107, 49] (.map (.cons [120] (.int 7) (.cons [98] .null .nil)))
+       (.cons [107, 50] (.str [112, 58, 113])
+       (.cons [107, 51] (.int 0)
+       (.cons [107, 52] .null .nil))))
+
+example : exTy.wf = true := by decide
+example : conforms exTy false exVal = true := by decide
+example : unambig exTy exVal = true := by decide
+example : shapeOK exTy exVal = true := by decide
+example : repr exTy exVal = some exRepr := by decide
+example : ofRepr Engine.ideal exTy exRepr = .ok exVal := by decide
+example : conformsRepr exTy false exRepr = true := by decide
 
 end Ipld.Props.C08
